@@ -83,10 +83,40 @@ def worker(arg):
                                              sorted(out["elems"][b][j])))
             except Exception as ex:
                 diff.append(("exception", type(ex).__name__, str(ex)[:200]))
+    if comp and not diff and hash(block) % 2 == 0:
+        diff.extend(service_sections(t, out, seed + hash(block) % 1000))
     r = {"nt": True, "key": core.jhash(tlaval.to_json(t))}
     if diff:
         r["bad"] = {"kind": "offsets", "case": tlaval.to_json(t), "files": g.files, "diff": diff[:6]}
     return r
+
+def service_sections(t, out, seed):
+    """The same schema as the request or the response part of a service, next to a partner part with the same number of
+    fields but another layout: `_offset_` in one part is the layout of THAT part only (the specification's OffsetAfter does
+    not know about the other part)."""
+    inner = t["inner"] if t["k"] == "del" else t
+    n = len(inner["f"])
+    partner = {"k": "st", "f": tuple({"k": "u", "n": 16, "m": "s"} for _ in range(n))}
+    a = out["after"]
+    exp_t = [a[k] for k in sorted(a)] if isinstance(a, dict) else list(a)
+    exp_p = [frozenset({16 * j}) for j in range(n + 1)]
+    diff = []
+    for t_first in (True, False):
+        g = dsdlgen.Gen(seed)
+        first, second = (t, partner) if t_first else (partner, t)
+        lines = g.body_lines(first, offset_prints=True, field_prefix="q") + ["---"] + g.body_lines(second, offset_prints=True, field_prefix="r")
+        g.files["ns/S.1.0.dsdl"] = "\n".join(lines) + "\n"
+        with dsdlio.Tree(g.files, "c08s") as tr:
+            status, res, prints = dsdlio.read_ns(tr.path("ns"))
+        if status != "ok":
+            diff.append(("service with this schema as its %s part rejected" % ("request" if t_first else "response"), dsdlio.err_info(res)))
+            continue
+        sp = [_ints(tx) for (p, l, tx) in prints if str(p).endswith("S.1.0.dsdl")]
+        want = (exp_t + exp_p) if t_first else (exp_p + exp_t)
+        if sp != want:
+            diff.append(("_offset_ prints of a service whose %s part is this schema" % ("request" if t_first else "response"),
+                         [sorted(x) for x in sp], [sorted(x) for x in want]))
+    return diff
 
 @core.safe
 def many_attr_worker(arg):
@@ -118,7 +148,9 @@ def run(ctx):
     ctx.rule = ("TLC enumerates composite and fixed-array types (flat: every primitive width; deep: nested to Growth levels) "
                 "with the offsets of every field / element for eight base offset sets, `_offset_` after every attribute "
                 "prefix, `_bit_length_` and `_extent_`; each is materialised and the iterators (queried repeatedly on the "
-                "same object, in both orders of the bases) and the printed intrinsics are compared with the specification. "
+                "same object, in both orders of the bases) and the printed intrinsics are compared with the specification; half of the "
+                "composites are also placed as the request and as the response part of a service next to a partner part with the "
+                "same number of fields (`_offset_` of one part does not depend on the other part). "
                 "Distinct by hash of the type record; every case is non-trivial (at least one field or element)")
     ctx.assumptions = ["TLC's evaluation of the specification", "closed-form expectations for flat 2..300-variant unions "
                        "with up to 300 constants (offsets depend on fields only)"]
